@@ -310,9 +310,96 @@ def run(ctx):
                 hg_params = [p_.arg for p_ in v.fi.params if p_.arg not in ("self",)]
                 from_labels = any(t in a for t in ("get_nodes", "degree", "isolated_nodes", "get_neighbors")) or any((h + ".") in a for h in hg_params)
                 res.add("I-ISOL", v.fi.short, a, "from-incidence", "violation" if from_labels and "transform(" not in a else "unknown", "isolated nodes are taken from the hypergraph's node labels, not from the rows of the incidence matrix: with labels other than 0..N-1 the wrong rows are dropped", loc(v.fi, v.fi.node))
+    with res.guard("N-LAGRANGE"):
+        check_lagrange(ctx, res)
     res.assumptions += ["scipy.sparse.csr_array is introspected on a 1x1 instance of the installed library (trusted base)", "sklearn KMeans with a fixed random_state is deterministic (library)"]
     with res.guard("general lint pack over the property's files"):
         from ..lints import check_pack
 
         check_pack(ctx, res, "C17")
     return res
+
+
+def check_lagrange(ctx, res, rule="N-LAGRANGE"):
+    """normalizeU: the multiplier lambda_i = enforce_constraint_u(num, den) solves sum_k num_k / (lambda + den_k) = 1; the rows sum
+    to one only if the membership is then num / (lambda_i + den) with THE SAME den (every additive term - the regulariser gammaU
+    included - on both sides).  Decided on the additive terms of the two expressions along the path through the call."""
+    res.rules[rule] = "the denominator the membership row is divided by is `lambda_i + den` for exactly the `den` that was handed to enforce_constraint_u (same additive terms, regulariser included)"
+    n_calls = 0
+    for fi in [f for f in ctx.prog.functions.values() if f.cls is not None and f.cls.name == "HypergraphMT"]:
+        calls = [c for c in walk_no_nested(fi.node) if isinstance(c, ast.Call) and isinstance(c.func, ast.Attribute) and c.func.attr == "enforce_constraint_u" and len(c.args) == 2]
+        if not calls:
+            continue
+        v = ctx.view(fi)
+
+        def defs_of(name):
+            return [a for a in walk_no_nested(fi.node) if isinstance(a, ast.Assign) and len(a.targets) == 1 and isinstance(a.targets[0], ast.Name) and a.targets[0].id == name]
+
+        def all_stores(name):
+            return [x for x in ast.walk(fi.node) if isinstance(x, ast.Name) and isinstance(x.ctx, ast.Store) and x.id == name]
+
+        def reaching_defs(name, use_id):
+            ds = defs_of(name)
+            if len(ds) != len(all_stores(name)):
+                return None  # loop targets, augmented assignments, unpackings: not expanded
+            ids = {id(d): v.cfg_id(d) for d in ds}
+            out = []
+            for d in ds:
+                did = ids[id(d)]
+                if did is None:
+                    return None
+                others = {i for k, i in ids.items() if k != id(d) and i is not None and i != use_id}
+                if did != use_id and v.cfg.reaches_without(did, use_id, others - {did}):
+                    out.append(d)
+                elif did == use_id and v.cfg.reaches_without(did, use_id, others):
+                    out.append(d)  # carried round a loop into its own right-hand side
+            return out
+
+        def expand(e, use_id, through, depth=0):
+            """additive terms of `e` as evaluated at CFG node use_id on a path that runs through the CFG node `through`"""
+            if isinstance(e, ast.BinOp) and isinstance(e.op, ast.Add):
+                return expand(e.left, use_id, through, depth) + expand(e.right, use_id, through, depth)
+            if isinstance(e, ast.Name) and depth < 6:
+                rd = reaching_defs(e.id, use_id)
+                if rd:
+                    rd = [d for d in rd if v.cfg_id(d) != use_id] or rd
+                    if len(rd) > 1 and through is not None:
+                        # the definition that lies on the path through the call: the call's own statement, or one reached from it
+                        on = [d for d in rd if v.cfg_id(d) == through or v.cfg.reaches_without(through, v.cfg_id(d), {use_id})]
+                        # ... and of those the ones NOT by-passed: a definition before the call that the path redefines is dropped
+                        if len(on) >= 1:
+                            late = [d for d in on if not any(o is not d and v.cfg.reaches_without(v.cfg_id(d), v.cfg_id(o), {use_id}) and v.cfg.reaches_without(v.cfg_id(o), use_id, {v.cfg_id(d)}) for o in on)]
+                            rd = late or on
+                    if len(rd) == 1:
+                        return expand(rd[0].value, v.cfg_id(rd[0]), through, depth + 1)
+            return [e]
+
+        for c in calls:
+            n_calls += 1
+            cid = v.cfg_id(c)
+            den_terms = sorted(norm(t) for t in expand(c.args[1], cid, None))
+            num = norm(c.args[0])
+            divs = []
+            for st in walk_no_nested(fi.node):
+                if isinstance(st, ast.Assign) and isinstance(st.value, ast.BinOp) and isinstance(st.value.op, ast.Div) and norm(st.value.left) == num and isinstance(st.targets[0], ast.Subscript):
+                    sid = v.cfg_id(st)
+                    if sid is not None and cid is not None and (v.cfg.reaches_without(cid, sid, set())):
+                        divs.append(st)
+            decided = False
+            for st in divs:
+                sid = v.cfg_id(st)
+                terms = expand(st.value.right, sid, cid)
+                lam = [t for t in terms if any(x is c or (isinstance(x, ast.Call) and isinstance(x.func, ast.Attribute) and x.func.attr == "enforce_constraint_u") for x in ast.walk(t))]
+                if len(lam) != 1 or not isinstance(lam[0], ast.Call):
+                    continue
+                rest = sorted(norm(t) for t in terms if t is not lam[0])
+                decided = True
+                if rest == den_terms:
+                    res.ok(rule, fi.short, norm(st)[:100], "same-denominator", loc(fi, st))
+                else:
+                    extra = [t for t in rest if t not in den_terms] + ["(missing) " + t for t in den_terms if t not in rest]
+                    res.violation(rule, fi.short, norm(st)[:100], "same-denominator", f"the multiplier was solved for the denominator `{' + '.join(den_terms)[:80]}` but the row is divided by lambda + `{' + '.join(rest)[:80]}` (differs by {', '.join(extra)[:80]}): with normalizeU the non-zero rows no longer sum to one", loc(fi, st))
+            if not decided:
+                res.unknown(rule, fi.short, norm(c)[:100], "same-denominator", "the division that uses the multiplier was not recognised as `num / (lambda + den)`", loc(fi, c))
+    if n_calls == 0:
+        res.unknown(rule, "HypergraphMT", "enforce_constraint_u(num, den)", "same-denominator", "no call of enforce_constraint_u found", "hypergraphx/communities/hypergraph_mt/model.py")
